@@ -363,6 +363,30 @@ def _is_index_test(e: ast.AST, ivar: str) -> bool:
     return isinstance(e, ast.Compare) and isinstance(e.left, ast.Name) and e.left.id == ivar and len(e.ops) == 1
 
 
+def collect_atoms_expr(e0: ast.AST, ivar: Optional[str], out: Optional[List[str]] = None) -> List[str]:
+    """Boolean atoms (other than comparisons of the child index) of one test expression."""
+    if out is None:
+        out = []
+
+    def rec(e: ast.AST) -> None:
+        if isinstance(e, ast.BoolOp):
+            for v in e.values:
+                rec(v)
+        elif isinstance(e, ast.UnaryOp) and isinstance(e.op, ast.Not):
+            rec(e.operand)
+        elif isinstance(e, ast.Constant):
+            pass
+        elif ivar is not None and _is_index_test(e, ivar):
+            pass
+        else:
+            k, _ = _norm_atom(e)
+            if k not in out:  # type: ignore[operator]
+                out.append(k)  # type: ignore[union-attr]
+
+    rec(e0)
+    return out
+
+
 def collect_atoms(fn: pf.FuncDef, ivar: Optional[str]) -> List[str]:
     """Boolean atoms (other than comparisons of the child index) tested anywhere in fn."""
     out: List[str] = []
